@@ -50,8 +50,12 @@ TRUSTED = ['translator tools/extract/algebra_dispatch.py + dispatch_interp.py (t
            'Guard.eval in Model/OpDispatch.lean',
            'Python operator-overload semantics (__op__/__rop__ order, NotImplemented, '
            '__array_priority__, reflected-first rule for subclasses) as encoded in `build`',
-           'leaf operators are opaque in the theorems (EnvOK: flagged-linear leaves are linear, '
-           'Functional leaves return scalars); their executable versions in the driver are tested only']
+           'leaf operators are opaque in the general theorems (EnvOK: flagged-linear leaves are linear, '
+           'Functional leaves return scalars); for the executable pool (LeafSpecC: every leaf kind '
+           'the driver runs) EnvOK is a theorem (C04.zoo_full_leaves_ok, build_sound_zoo_full, '
+           'build_sound_driver_pool) and the leaf maps / flags / linearity classes are compared '
+           'with the real operators on the stream `leafclass`; the harness classes ShiftPower and '
+           'LinFunctional are themselves test fixtures']
 ASSUMPTIONS = ['EnvOK: a leaf flagged is_linear is additive and homogeneous for the scalars in R (R = all '
                'scalars, or the real ones when a leaf is only real-linear such as RealPart-based '
                'leaves on cn); a Functional leaf returns a scalar; scalars marked Real are in R',
@@ -1757,6 +1761,224 @@ def stream(ctx, cplx, pool_seed, it, count=True, batch=6000, deadline=None):
             return
 
 
+# ---------------------------------------------------------------------------
+# stream `leafclass`: the executable leaf maps of the model (LeafSpecC.map / .info / .cls), one
+# leaf at a time, against the real operator they stand for.  Sizes, exponents, vectors and
+# scalars range wider than in the expression pool (the theorems are for all of them).
+
+def _c(tok):
+    re_, im_ = parse_c(tok)
+    return complex(float(re_), float(im_)) if im_ else float(re_)
+
+
+def op_from_spec(spec, cplx):
+    """The real ODL operator for a wire leaf spec (library classes only)."""
+    import odl
+    mk = odl.cn if cplx else odl.rn
+    p = spec.split('~')
+    k = p[0]
+    if k == 'scale':
+        return odl.ScalingOperator(mk(int(p[1])), _c(p[2]))
+    if k == 'ident':
+        return odl.IdentityOperator(mk(int(p[1])))
+    if k == 'pow':
+        return odl.PowerOperator(mk(int(p[1])), int(p[2]))
+    if k == 'mat':
+        rows = [[_c(t) for t in r.split(',')] for r in p[3].split(';')]
+        return odl.MatrixOperator(np.array(rows, dtype=complex if cplx else float),
+                                  domain=mk(int(p[1])), range=mk(int(p[2])))
+    if k == 'constf':
+        return odl.solvers.ConstantFunctional(mk(int(p[1])), _c(p[2]))
+    if k == 'zerof':
+        return odl.solvers.ZeroFunctional(mk(int(p[1])))
+    if k == 'inner':
+        sp = mk(int(p[1]))
+        return odl.InnerProductOperator(sp.element([_c(t) for t in p[2].split(',')]))
+    if k == 'l2sq':
+        return odl.solvers.L2NormSquared(mk(int(p[1])))
+    if k == 'repart':
+        return odl.ComplexEmbedding(odl.rn(int(p[1]))) * odl.RealPart(odl.cn(int(p[1])))
+    if k == 'impart':
+        return odl.ComplexEmbedding(odl.rn(int(p[1]))) * odl.ImagPart(odl.cn(int(p[1])))
+    if k == 'scalef':
+        return odl.ScalingOperator(mk(1).field, _c(p[1]))
+    if k == 'powf':
+        return odl.PowerOperator(mk(1).field, int(p[1]))
+    raise ValueError('no library leaf for ' + spec)
+
+
+def leaf_specs(rng, cplx, quick):
+    """wire specs of library leaves with random parameters"""
+    def vals(n, lo=-3, hi=3):
+        out = []
+        for _ in range(n):
+            a = rng.choice([lo, hi, -1, 1, 2, 0, 0.5, -0.5, 1.5])
+            out.append(complex(a, rng.choice([-2, -1, 1, 0.5])) if cplx and rng.random() < 0.5
+                       else float(a))
+        return out
+    sizes = (1, 2, 3) if quick else (1, 2, 3, 4, 5, 7)
+    out = []
+    for n in sizes:
+        out.append('scale~{}~{}'.format(n, cs(vals(1)[0])))
+        out.append('ident~{}'.format(n))
+        for pw in (1, 2, 3) if quick else (0, 1, 2, 3, 4):
+            out.append('pow~{}~{}'.format(n, pw))
+        nr = rng.choice(sizes)
+        out.append('mat~{}~{}~{}'.format(n, nr, ';'.join(cl(vals(n, -2, 2)) for _ in range(nr))))
+        out.append('constf~{}~{}'.format(n, cs(vals(1)[0])))
+        out.append('constf~{}~0'.format(n))
+        out.append('zerof~{}'.format(n))
+        out.append('inner~{}~{}'.format(n, cl(vals(n))))
+        out.append('l2sq~{}'.format(n))
+        if cplx:
+            out.append('repart~{}'.format(n))
+            out.append('impart~{}'.format(n))
+    out.append('scalef~{}'.format(cs(vals(1)[0])))
+    for pw in (1, 2, 3):
+        out.append('powf~{}'.format(pw))
+    return out
+
+
+def leaf_eval(op, v):
+    """op at the list `v` -> list of python numbers, or an outcome string"""
+    import odl
+    try:
+        with np.errstate(all='ignore'):
+            if isinstance(op.domain, odl.set.sets.Field):
+                return flat(op(v[0]))
+            return flat(op(op.domain.element(v)))
+    except Exception as e:  # noqa: a mutated repo must give a VIOLATION, not a crash
+        return 'raise:{}: {}'.format(type(e).__name__, str(e)[:120])
+
+
+def run_leaf_case(op, spec, x, y, s, t):
+    """Real code only. Returns (real dict, problems): the ORACLE is the definition of the flags:
+    `is_linear` set => additive and homogeneous for the real scalar t on the real code; a
+    `Functional` returns an element of its field."""
+    import odl
+    real = {'lin': bool(op.is_linear), 'fn': isinstance(op, odl.solvers.Functional),
+            'dom': sp_name(op.domain), 'ran': sp_name(op.range)}
+    sx = [s * a for a in x]
+    tx = [t * a for a in x]
+    xy = [a + b for a, b in zip(x, y)]
+    for name, v in (('fx', x), ('fy', y), ('fsx', sx), ('ftx', tx), ('fxy', xy)):
+        real[name] = leaf_eval(op, v)
+    problems = []
+    vals = [real[k] for k in ('fx', 'fy', 'fsx', 'ftx', 'fxy')]
+    if any(isinstance(v, str) for v in vals):
+        problems.append('leaf raises: ' + '; '.join(v for v in vals if isinstance(v, str))[:300])
+        return real, problems
+    ex = {k: [exact(v) for v in real[k]] for k in ('fx', 'fy', 'fsx', 'ftx', 'fxy')}
+    real['ex'] = ex
+    if any(None in v for v in ex.values()):
+        problems.append('leaf value not finite')
+        return real, problems
+
+    def cmul(c, pq):
+        c = exact(c)
+        return (c[0] * pq[0] - c[1] * pq[1], c[0] * pq[1] + c[1] * pq[0])
+    real['hom_t'] = ex['ftx'] == [cmul(t, v) for v in ex['fx']]
+    real['hom_s'] = ex['fsx'] == [cmul(s, v) for v in ex['fx']]
+    real['add'] = ex['fxy'] == [(a[0] + b[0], a[1] + b[1]) for a, b in zip(ex['fx'], ex['fy'])]
+    if real['lin'] and not real['hom_t']:
+        problems.append('is_linear=True but leaf(t*x) != t*leaf(x) for the real scalar t={!r}: {} vs '
+                        '{}'.format(t, real['ftx'], real['fx']))
+    if real['lin'] and not real['add']:
+        problems.append('is_linear=True but leaf(x+y) != leaf(x)+leaf(y): {} vs {} + {}'.format(
+            real['fxy'], real['fx'], real['fy']))
+    if real['fn'] and (real['ran'] != 'F' or len(real['fx']) != 1):
+        problems.append('Functional leaf does not return a scalar of its field')
+    return real, problems
+
+
+def leafclass_stream(ctx, count=True, deadline=None):
+    import time
+    quick = ctx.quick
+    reps = 2 if quick else 12
+    for cplx in (False, True):
+        pool_seed = ctx.rng.getrandbits(32)
+        pool, spaces, pool_ids = setup(ctx, cplx, pool_seed)
+        items = [(l.kind, l.spec.split('~', 1)[1], l.op, i) for i, l in enumerate(pool)
+                 if l.kind not in ('retarg', 'repartr')]
+        for spec in leaf_specs(ctx.rng, cplx, quick):
+            try:
+                items.append((spec.split('~')[0], spec, op_from_spec(spec, cplx), None))
+            except Exception as e:  # noqa
+                PENDING.append((1, len(PENDING), 'raises; leaf constructor {} field={}'.format(
+                    spec.split('~')[0], 'complex' if cplx else 'real'),
+                    '{} :: {}: {}'.format(spec, type(e).__name__, str(e)[:200]),
+                    {'stream': 'leafclass', 'leafspec': spec, 'field': 'complex' if cplx else 'real',
+                     'ctor': True}))
+        cases, lines = [], []
+        for kind, spec, op, idx in items:
+            n = 1 if sp_name(op.domain) == 'F' else int(sp_name(op.domain)[1:])
+            for _ in range(reps):
+                x, y = rand_point(ctx.rng, n, cplx), rand_point(ctx.rng, n, cplx)
+                s = ctx.rng.choice([1j, -1j, 1 + 1j, 0.5 - 1j, 2j]) if cplx else \
+                    ctx.rng.choice([-1.0, 2.0, 0.5, 3.0])
+                t = ctx.rng.choice([2.0, -1.0, 0.5, 3.0, -0.5, 0.0])
+                real, problems = run_leaf_case(op, spec, x, y, s, t)
+                desc = {'stream': 'leafclass', 'leafspec': spec, 'kind': kind,
+                        'field': 'complex' if cplx else 'real', 'pool_seed': pool_seed,
+                        'pool_index': idx, 'x': [str(v) for v in x], 'y': [str(v) for v in y],
+                        's': str(s), 't': str(t)}
+                for p in problems:
+                    PENDING.append((1, len(PENDING), '{} leaf kind={} field={}'.format(
+                        'flag-unsound;' if p.startswith('is_linear') else 'other;', kind,
+                        desc['field']), '{} :: {}'.format(spec, p)[:700], desc))
+                cases.append((kind, spec, real, desc))
+                lines.append('leafclass leaf={} x={} y={} s={} t={}'.format(
+                    spec, cl(x), cl(y), cs(s), cs(t)))
+        outs = core.run_driver('C04', lines)
+        for (kind, spec, real, desc), ans in zip(cases, outs):
+            f = dict(tk.split('=', 1) for tk in ans.split()[1:]) if ans.startswith('ok ') else {}
+            if not f:
+                ctx.disagree(desc, 'leaf ' + spec, ans, stream='leafclass')
+                continue
+            mflags = (f['lin'], f['fn'], f['dom'], f['ran'])
+            rflags = (str(int(real['lin'])), str(int(real['fn'])), real['dom'], real['ran'])
+            if mflags != rflags:
+                ctx.disagree(desc, 'is_linear/Functional/domain/range of the real leaf {}'.format(
+                    rflags), 'LeafSpecC.info {}'.format(mflags), stream='leafclass')
+            elif 'ex' not in real:
+                ctx.disagree(desc, 'real leaf: ' + str([real[k] for k in ('fx', 'fsx')])[:300],
+                             ans[:300], stream='leafclass')
+            else:
+                for name in ('fx', 'fy', 'fsx', 'ftx', 'fxy'):
+                    mv = parse_cl(f[name])
+                    okx = bits_exact(mv) <= EXACT_BITS
+                    if not same(real['ex'][name], mv, okx):
+                        ctx.disagree(desc, '{} {}'.format(name, showv(real['ex'][name])),
+                                     'LeafSpecC.map: {} {}'.format(name, showv(mv)),
+                                     stream='leafclass')
+                        break
+                # the class the theorems use must not claim more than the real leaf does, and
+                # must cover every leaf the library flags is_linear
+                if f['cls'] == 'all' and not (real['hom_s'] and real['hom_t'] and real['add']):
+                    ctx.disagree(desc, 'real leaf: hom(s)={} hom(t)={} additive={}'.format(
+                        real['hom_s'], real['hom_t'], real['add']), 'cls=all', stream='leafclass')
+                if f['cls'] == 'real' and not (real['hom_t'] and real['add']):
+                    ctx.disagree(desc, 'real leaf: hom(t)={} additive={}'.format(
+                        real['hom_t'], real['add']), 'cls=real', stream='leafclass')
+                if (f['cls'] == 'none') == real['lin']:
+                    ctx.disagree(desc, 'is_linear={}'.format(real['lin']), 'cls=' + f['cls'],
+                                 stream='leafclass')
+            if count:
+                nontriv = 'ex' in real and any(p != (0, 0) for p in real['ex']['fx'])
+                ctx.case(('leafclass', kind, f['cls'], desc['field']) if nontriv else None)
+                ctx.hit('stream/leafclass')
+                ctx.hit('leafclass/' + f['cls'])
+                ctx.hit('leafkind/' + kind)
+                if f['cls'] == 'real' and 'ex' in real and not real['hom_s']:
+                    ctx.hit('leafclass/real-not-complex-homogeneous')
+                if f['cls'] == 'none' and 'ex' in real and not real['add']:
+                    ctx.hit('leafclass/none-not-additive')
+            else:
+                ctx.evaluations += 1
+        if deadline is not None and (PENDING or time.time() > deadline):
+            return
+
+
 MODEL_BRANCHES = ['class/' + n for n in (
     'OperatorSum', 'FunctionalSum', 'FunctionalScalarSum', 'OperatorVectorSum', 'OperatorComp',
     'FunctionalComp', 'OperatorPointwiseProduct', 'FunctionalProduct', 'FunctionalQuotient',
@@ -1766,7 +1988,11 @@ MODEL_BRANCHES = ['class/' + n for n in (
     'ZeroFunctional')] + ['dispatch/reflected-first-add', 'dispatch/reflected-first-mul', 'raise/OpTypeError', 'raise/TypeError',
                           'skip/div-by-zero-scalar(raised)', 'skip/div-by-zero-scalar(built)',
                           'mixed/well-typed', 'stratum/ownership', 'stratum/history',
-                          'stream/protocol']
+                          'stream/protocol', 'stream/leafclass', 'leafclass/all', 'leafclass/real',
+                          'leafclass/none', 'leafclass/real-not-complex-homogeneous',
+                          'leafclass/none-not-additive'] + ['leafkind/' + k for k in (
+                              'mat', 'scale', 'ident', 'pow', 'pow2', 'shift', 'shiftsq', 'constf',
+                              'zerof', 'inner', 'linf', 'l2sq', 'repart', 'impart', 'scalef', 'powf')]
 
 
 def run(ctx):
@@ -1797,6 +2023,7 @@ def _run(ctx):
         stream(ctx, cplx, seed, lambda pool: targeted_cases(ctx, pool, cplx))
     mixed_stream(ctx)
     protocol_stream(ctx)
+    leafclass_stream(ctx)
 
 
 SEARCH_SECONDS = 50
@@ -1817,6 +2044,9 @@ def search(ctx, broken):
                  'constf', 'zerof', 'repart', 'impart')
         # ownership / history strata first: a broken pin, lemma or extraction about copies,
         # temporaries or _call bodies shows there
+        leafclass_stream(ctx, count=False, deadline=deadline)
+        if PENDING or time.time() > deadline:
+            return
         protocol_stream(ctx, count=False, deadline=deadline)
         if PENDING or time.time() > deadline:
             return
@@ -1840,6 +2070,23 @@ def search(ctx, broken):
 def replay(ctx, case):
     """Re-run one recorded case on the real code; returns a description if it still fails."""
     import ast as pyast
+    if case.get('stream') == 'leafclass':
+        cplx = case['field'] == 'complex'
+        if case.get('ctor'):
+            try:
+                op_from_spec(case['leafspec'], cplx)
+                return None
+            except Exception as e:  # noqa
+                return 'leaf constructor raises {}: {}'.format(type(e).__name__, str(e)[:200])
+        if case.get('pool_index') is not None:
+            pool, _, _ = setup(ctx, cplx, case['pool_seed'])
+            op = pool[case['pool_index']].op
+        else:
+            op = op_from_spec(case['leafspec'], cplx)
+        num = (lambda v: complex(v) if 'j' in v else float(v))
+        _, problems = run_leaf_case(op, case['leafspec'], [num(v) for v in case['x']],
+                                    [num(v) for v in case['y']], num(case['s']), num(case['t']))
+        return '; '.join(problems)[:600] if problems else None
     if case.get('field') == 'mixed':
         sp, leaves = mixed_pool()
         a = eval(case['ast'], {'__builtins__': {}})
